@@ -279,9 +279,38 @@ func genHeaderMode(rng *rand.Rand, maxVals, mode int) tmconsensus.Header {
 		PrevAppStateHash: optBytes(rng, 32),
 		Annotations:      genAnnotations(rng),
 	}
-	if rng.UintN(3) == 0 {
+	switch x := rng.UintN(12); {
+	case x < 4:
 		h.NextValidatorSet = h.ValidatorSet
-	} else {
+	case x < 7 && len(h.ValidatorSet.Validators) > 0:
+		// the next set is a small edit of the current one: the same keys with other powers,
+		// a reordering, one validator more or one fewer (what applications really return)
+		vals := append([]tmconsensus.Validator{}, h.ValidatorSet.Validators...)
+		switch rng.UintN(4) {
+		case 0:
+			for i := range vals {
+				if rng.UintN(2) == 0 {
+					vals[i].Power = genU64(rng)
+				}
+			}
+			vals[rng.IntN(len(vals))].Power ^= 1
+		case 1:
+			rng.Shuffle(len(vals), func(a, b int) { vals[a], vals[b] = vals[b], vals[a] })
+		case 2:
+			vals = append(vals, tmconsensus.Validator{PubKey: genPubKey(rng, mode), Power: genU64(rng)})
+		default:
+			vals = vals[:len(vals)-1]
+		}
+		if len(vals) == 0 {
+			h.NextValidatorSet = genValSet(rng, maxVals, mode)
+			break
+		}
+		vs, err := tmconsensus.NewValidatorSet(vals, hashScheme)
+		if err != nil {
+			panic(err)
+		}
+		h.NextValidatorSet = vs
+	default:
 		h.NextValidatorSet = genValSet(rng, maxVals, mode)
 	}
 	switch rng.UintN(6) {
